@@ -13,11 +13,11 @@
                           proof: unmodified printable keys with their text; Shift + lower-case letter with the
                           upper-case text (and Shift + a non-letter that Shift leaves alone); Alt + a character c
                           for which ESC c is one escape sequence; Ctrl + letter other than h, i, m (whose C0
-                          codes are Backspace, Tab, Enter); every key of xtermKeymap with every combination of
+                          codes are Backspace, Tab, Enter) and Ctrl + @ \ ] ^ _; every key of xtermKeymap with every combination of
                           Shift/Alt/Ctrl; Tab, Enter, Esc, Backspace unmodified and Shift+Tab.  Caps Lock and
                           Num Lock may be set in any of them; Super/Hyper/Meta may not.
    [u : uni] is package unicode, [seg] is uniseg's grapheme clustering: oracles.  The oracle hypotheses are
-   [oracle_ok u] (DEL is not upper-case, no upper-case rune lower-cases to DEL, a-z are lower-case) and
+   [oracle_ok u] (DEL is not upper-case, no upper-case rune lower-cases to DEL, among ASCII exactly a-z are lower-case) and
    [seg [r] = [[r]]] (one code point is one cluster). *)
 From Vx Require Import base.Prelude gen.GenKeys gen.GenTermKeys model.Keys model.ParserTypes model.Parser
   model.TermMouse model.TermKeys proofs.TermKeysProofs.
@@ -45,6 +45,25 @@ Theorem C13_key_forward_text : forall (u : uni) (seg : list Z -> list (list Z)) 
 Proof. exact key_forward_text. Qed.
 Print Assumptions C13_key_forward_text.
 
+(* Any key that produced one printable code point of text with at most Shift held — Caps Lock, AltGr, compose,
+   Shift+digit, whatever the key code: exactly one key event arrives, it carries that text and matches the text
+   rune without modifiers.  (The key code itself is beyond the legacy encoding: it sends the character.) *)
+Theorem C13_key_forward_any_text : forall (u : uni) (seg : list Z -> list (list Z)) (k : key) (md : tmodes),
+  (forall r, seg [r] = [[r]]) -> oracle_ok u ->
+  mods_in_scope k = true -> chord_text k = true ->
+  textchord_ok u k (forward u seg md (TKey k)) = true.
+Proof. exact key_forward_textchord. Qed.
+Print Assumptions C13_key_forward_any_text.
+
+(* Ctrl + an ASCII character that xterm maps to a control code (Space 2-8 / ? @ A-Z [ \ ] ^ _ a-z;
+   [xterm_ctrl_code] is written by hand from xterm's ctlseqs) is written as exactly that code.  Of these
+   only the chords of xterm_expressible come back as themselves: NUL is Ctrl+@ = Ctrl+2 = Ctrl+Space, etc. *)
+Theorem C13_ctrl_codes_are_xterms : forall (u : uni) (k : key) (deckpam decckm : bool) (b : Z),
+  oracle_ok u -> mods_in_scope k = true -> chord_mods k = ModCtrl ->
+  xterm_ctrl_code (k_code k) = Some b -> encode_xterm u k deckpam decckm = [b].
+Proof. exact ctrl_codes_xterm. Qed.
+Print Assumptions C13_ctrl_codes_are_xterms.
+
 (* special keys, with no hypothesis on the oracles, and exactly: the decoded event has the chord's key code and
    precisely its Shift/Alt/Ctrl set.  Bound: the 22 keys of xtermKeymap, modifier masks 0..255 without
    Super/Hyper/Meta, the 4 DECCKM/DECKPAM settings. *)
@@ -70,14 +89,20 @@ Theorem C13_cursor_mode_only_cursor_keys : forall (u : uni) (k : key) (deckpam :
 Proof. exact cursor_mode_only_cursor. Qed.
 Print Assumptions C13_cursor_mode_only_cursor_keys.
 
-(* The keypad mode (DECKPAM / DECKPNM) selects nothing: applicationKeymap and numericKeymap are the same
-   table, and keypad keys (KeyKeyPad0, ...) are in neither.  The clause "the child's keypad mode selects the
-   encoding it asked for" of the property is therefore NOT proved; what is proved is that the mode is
-   without effect (proposed finding keypad-mode-ignored). *)
+(* Full statement demanded by the property, NOT provable (recorded finding keypad-mode-ignored):
+     forall k, keypad_guard k = true -> encode_xterm u k true decckm <> encode_xterm u k false decckm
+   i.e. for a keypad key (KeyKeyPad0 ...) the child's keypad mode selects the encoding.  What holds instead:
+   DECKPAM / DECKPNM select nothing, for any key: applicationKeymap and numericKeymap are the same table and
+   the keypad keys are in neither.  The refutation is on the corpus case of the finding (keypad 0). *)
 Theorem C13_keypad_mode_selects_nothing : forall (u : uni) (k : key) (decckm : bool),
   encode_xterm u k true decckm = encode_xterm u k false decckm.
 Proof. exact keypad_mode_selects_nothing. Qed.
 Print Assumptions C13_keypad_mode_selects_nothing.
+
+Theorem C13_keypad_mode_selects_refuted :
+  exists k, keypad_guard k = true /\ encode_xterm ascii_uni k true false = encode_xterm ascii_uni k false false.
+Proof. exact keypad_mode_refuted. Qed.
+Print Assumptions C13_keypad_mode_selects_refuted.
 
 (* ---------- mouse ---------- *)
 
@@ -135,6 +160,10 @@ Example C13_ex_expressible :
   xterm_expressible ascii_uni (mkKey [] KeyF05 0 0 7 0) = true /\              (* Ctrl+Alt+Shift+F5 *)
   xterm_expressible ascii_uni (mkKey [] KeyTab 0 0 1 0) = true /\              (* Shift+Tab *)
   xterm_expressible ascii_uni (mkKey [] 97 0 0 6 0) = false /\                 (* Ctrl+Alt+a *)
+  xterm_expressible ascii_uni (mkKey [] 92 0 0 4 0) = true /\                  (* Ctrl+\ *)
+  chord_text (mkKey [65] 97 0 0 64 0) = true /\                                (* a with Caps Lock: text A *)
+  term_update ascii_uni modes0 (TKey (mkKey [65] 97 0 0 64 0)) = [65] /\
+  xterm_ctrl_code 32 = Some 0 /\ term_update ascii_uni modes0 (TKey (mkKey [] 32 0 0 4 0)) = [0] /\  (* Ctrl+Space *)
   forward ascii_uni rune_seg modes0 (TKey (mkKey [] KeyTab 0 0 1 0)) = [HKey (mkKey [] KeyTab 0 0 1 0)] /\
   forward ascii_uni rune_seg (apply_ops [OpSet 1]) (TKey (mkKey [] KeyUp 0 0 0 0)) = [HKey (mkKey [] KeyUp 0 0 0 0)] /\
   term_update ascii_uni (apply_ops [OpSet 1]) (TKey (mkKey [] KeyUp 0 0 0 0)) = [27; 79; 65].
